@@ -20,6 +20,8 @@ import (
 	"github.com/grailbio/base/errors"
 	"github.com/grailbio/base/file"
 	"github.com/grailbio/base/log"
+	"github.com/grailbio/bigmachine/testsystem"
+	"github.com/grailbio/bigslice"
 	"github.com/grailbio/bigslice/exec"
 	"verifharness/vf"
 )
@@ -265,8 +267,8 @@ type Op struct {
 }
 
 type Desc struct {
-	Kind   string `json:"kind"`             // "store" | "retry"
-	Store  string `json:"store,omitempty"`  // "file" | "mem"
+	Kind   string `json:"kind"`             // "store" | "retry" | "rpc"
+	Store  string `json:"store,omitempty"`  // "file" | "mem"; rpc: which real opener, "eval" | "machine"
 	Faults []int  `json:"faults,omitempty"` // indices of the file operations to fail
 	Ops    []Op   `json:"ops"`
 	Stream int    `json:"stream,omitempty"` // retry: stream length (bytes 1..n)
@@ -489,6 +491,12 @@ type retryEnv struct {
 	eager  bool
 	script []Op
 	events []string
+	// real, if set, is the OpenAt of one of the executor's own openers
+	// (evalOpenerAt / machineTaskPartition): streams are then opened through
+	// the real Worker.Read RPC at the offset retryReader asks for, and the
+	// script only decides how many of the real bytes each Read hands on and
+	// where the stream breaks.
+	real func(ctx context.Context, offset int64) (io.ReadCloser, error)
 }
 
 func (e *retryEnv) pop(m int) Op {
@@ -506,6 +514,14 @@ func (e *retryEnv) openAt(ctx context.Context, off int64) (io.ReadCloser, error)
 		e.events = append(e.events, vf.App("EvOpen", vf.Nat(int(off)), "false"))
 		return nil, errInjected
 	}
+	var rc io.ReadCloser
+	if e.real != nil {
+		var err error
+		if rc, err = e.real(ctx, off); err != nil {
+			e.events = append(e.events, vf.App("EvOpen", vf.Nat(int(off)), "false"))
+			return nil, err
+		}
+	}
 	e.events = append(e.events, vf.App("EvOpen", vf.Nat(int(off)), "true"))
 	pos := off
 	if pos > int64(len(e.stream)) {
@@ -514,12 +530,25 @@ func (e *retryEnv) openAt(ctx context.Context, off int64) (io.ReadCloser, error)
 	if pos < 0 {
 		pos = 0
 	}
-	return &retryBacking{e: e, pos: int(pos)}, nil
+	return &retryBacking{e: e, pos: int(pos), rc: rc}, nil
 }
 
 type retryBacking struct {
 	e   *retryEnv
 	pos int
+	rc  io.ReadCloser // the real stream (rpc cases), positioned by the real opener
+}
+
+// readReal hands on exactly n bytes of the real stream (fewer only if it ends).
+func (b *retryBacking) readReal(p []byte) (int, error) {
+	if len(p) == 0 {
+		return 0, nil
+	}
+	n, err := io.ReadFull(b.rc, p)
+	if err == io.ErrUnexpectedEOF {
+		err = io.EOF
+	}
+	return n, err
 }
 
 func min3(a, b, c int) int {
@@ -539,6 +568,26 @@ func (b *retryBacking) Read(p []byte) (n int, err error) {
 	k := int(o.N)
 	if k < 0 {
 		k = 0
+	}
+	if b.rc != nil {
+		// same outcomes, but the bytes come from the real stream, wherever the
+		// real opener positioned it
+		switch o.K {
+		case "deliver":
+			if rem == 0 {
+				n, err = b.rc.Read(p) // the committed stream is exhausted: 0, EOF expected
+			} else {
+				n, err = b.readReal(p[:min3(k, len(p), rem)])
+			}
+		case "failafter":
+			n, _ = b.readReal(p[:min3(k, len(p), rem)])
+			err = errInjected
+		default:
+			n, err = 0, errInjected
+		}
+		b.pos += n
+		e.events = append(e.events, vf.App("EvRead", vf.Nat(n), status(err)))
+		return n, err
 	}
 	switch o.K {
 	case "deliver":
@@ -563,6 +612,9 @@ func (b *retryBacking) Read(p []byte) (n int, err error) {
 
 func (b *retryBacking) Close() error {
 	b.e.events = append(b.e.events, "EvClose")
+	if b.rc != nil {
+		_ = b.rc.Close()
+	}
 	return nil
 }
 
@@ -584,12 +636,15 @@ func outcomeTerm(o Op) (string, bool) {
 	return "", false
 }
 
-func runRetry(d Desc) (term string, final string, nfail int, delivered int) {
+func runRetry(d Desc, real *retryEnv) (term string, final string, nfail int, delivered int) {
 	stream := make([]byte, d.Stream)
 	for i := range stream {
 		stream[i] = byte(i + 1)
 	}
 	env := &retryEnv{stream: stream, eager: d.Eager}
+	if real != nil {
+		env, stream = real, real.stream
+	}
 	var script []string
 	for _, o := range d.Ops {
 		if t, ok := outcomeTerm(o); ok {
@@ -654,6 +709,102 @@ func runRetry(d Desc) (term string, final string, nfail int, delivered int) {
 	term = vf.App("CRetry", vf.Bytes(stream), vf.Bool(d.Eager), vf.List(script), vf.NatList(sizes),
 		vf.List(results), vf.List(env.events))
 	return term, final, nfail, delivered
+}
+
+// ---------------------------------------------------------------- the real openers (rpc cases)
+
+// c15Func's single task commits one partition on an in-process worker; its
+// encoded stream is what the real openers serve through Worker.Read.
+var c15Func = bigslice.Func(func() bigslice.Slice {
+	vs := make([]int, 40)
+	ss := make([]string, 40)
+	for i := range vs {
+		vs[i] = i*i*7919 + 3
+		ss[i] = fmt.Sprintf("row-%03d", i)
+	}
+	return bigslice.Const(1, vs, ss)
+})
+
+type rpcWorld struct {
+	w       *exec.VerifC15World
+	full    []byte
+	openers map[string]func(ctx context.Context, offset int64) (io.ReadCloser, error)
+}
+
+var theWorld *rpcWorld
+
+// world starts (once) a bigmachine session on an in-process test system, runs
+// c15Func and reads the committed stream once without failures.
+func world() (*rpcWorld, error) {
+	if theWorld != nil {
+		return theWorld, nil
+	}
+	ctx := context.Background()
+	w, err := exec.VerifC15NewWorld(ctx, testsystem.New(), c15Func)
+	if err != nil {
+		return nil, err
+	}
+	if w.NumTasks() != 1 {
+		return nil, fmt.Errorf("c15: %d result tasks, want 1", w.NumTasks())
+	}
+	rw := &rpcWorld{w: w, openers: map[string]func(ctx context.Context, offset int64) (io.ReadCloser, error){}}
+	if rw.openers["eval"], err = w.EvalOpener(0, 0); err != nil {
+		return nil, err
+	}
+	if rw.openers["machine"], err = w.MachineOpener(0, 0); err != nil {
+		return nil, err
+	}
+	rc, err := rw.openers["machine"](ctx, 0)
+	if err != nil {
+		return nil, err
+	}
+	rw.full, err = io.ReadAll(rc)
+	_ = rc.Close()
+	if err != nil {
+		return nil, err
+	}
+	if len(rw.full) < 16 {
+		return nil, fmt.Errorf("c15: committed stream unexpectedly short (%d bytes)", len(rw.full))
+	}
+	theWorld = rw
+	return rw, nil
+}
+
+// rpcDescs: breaks of the real stream after k delivered bytes (k = 0, 1, middle,
+// last byte, end), clean and after a partial read, repeated breaks, breaks with
+// small buffers, and exhaustion of the retry budget - on both real openers.
+func rpcDescs(L int, dense bool) []Desc {
+	var out []Desc
+	big := 2048
+	del := func(k int) Op { return Op{K: "deliver", N: int64(k)} }
+	brk := Op{K: "failafter", N: 0}
+	add := func(kind string, sizes []int, ops ...Op) {
+		out = append(out, Desc{Kind: "rpc", Store: kind, Ops: ops, Sizes: sizes})
+	}
+	for _, kind := range []string{"eval", "machine"} {
+		ks := []int{0, 1, L / 2, L - 1, L}
+		if dense && kind == "eval" {
+			ks = nil
+			for k := 0; k <= L; k++ {
+				ks = append(ks, k)
+			}
+		}
+		for _, k := range ks {
+			add(kind, sizesConst(4, big), del(k), brk)
+		}
+		for _, k := range []int{1, L / 2, L - 1} {
+			add(kind, sizesConst(4, big), del(k), Op{K: "failafter", N: 3})
+			add(kind, sizesConst(4, big), del(k), Op{K: "openfail"}, Op{K: "openfail"})
+		}
+		add(kind, sizesConst(6, big), del(1), brk, del(1), brk, Op{K: "openfail"})
+		add(kind, sizesConst(6, big), del(L/3), brk, del(L/3), Op{K: "failafter", N: 2}, del(1), brk)
+		add(kind, sizesConst(6, big), del(L-1), brk, brk, brk, del(1), brk)
+		add(kind, sizesConst(L/37+8, 37), del(20), brk, del(37), del(5), Op{K: "failafter", N: 2})
+		add(kind, sizesConst(4, big), del(L/2), brk, brk, brk, brk, brk, brk)
+		add(kind, sizesConst(4, big), del(1), Op{K: "openfail"}, Op{K: "openfail"}, Op{K: "openfail"}, Op{K: "openfail"}, Op{K: "openfail"}, Op{K: "openfail"})
+		add(kind, sizesConst(3, big))
+	}
+	return out
 }
 
 // ---------------------------------------------------------------- generators
@@ -876,6 +1027,7 @@ func main() {
 	out := &vf.Output{ID: "C15", Import: "BS.C15.Corr",
 		Rule: "store cases: create/write/commit/discard/open/stat sequences on fileStore (over faulty://, failing chosen file operations) and memoryStore, " +
 			"each followed by a stat+open probe; non-trivial = a commit was attempted and (file store) an injected failure fired, or a committed entry was read back from a non-zero offset; distinct by case text. " +
+			"rpc cases: retryReader over the executor's real openers (evalOpenerAt behind bigmachineExecutor.Reader, machineTaskPartition behind newMachineReader) serving a committed partition through Worker.Read on an in-process test system, the stream broken after k delivered bytes (k = 0, 1, middle, last byte, end; single and repeated breaks; budget exhaustion); judged like retry cases against the committed bytes. " +
 			"retry cases: retryReader over a scripted backing stream (open failures, read failures, partial reads before a failure, short reads); non-trivial = at least one failure outcome in the script; distinct by case text",
 		Extra: map[string]interface{}{"retry_budget_probed": budget}}
 
@@ -988,6 +1140,13 @@ func main() {
 			}
 			descs = append(descs, Desc{Kind: "retry", Stream: n, Eager: r.Bool(), Ops: genScript(r), Sizes: sizes})
 		}
+		// the real openers under retryReader (fixed, small set; dense in thorough)
+		rw, err := world()
+		if err != nil {
+			fmt.Fprintln(os.Stderr, "c15: cannot set up the bigmachine world:", err)
+			os.Exit(2)
+		}
+		descs = append(descs, rpcDescs(len(rw.full), opts.Tier == "thorough")...)
 	}
 
 	firedDist := map[string]int{}
@@ -1024,8 +1183,22 @@ func main() {
 				nontriv = vf.Hash(so.term)
 			}
 			out.Add(vf.Case{Term: so.term, Desc: d, Sig: sig, Nontriv: nontriv, Kind: kind, Observed: so.summary()})
+		case "rpc":
+			rw, err := world()
+			if err != nil || rw.openers[d.Store] == nil {
+				fmt.Fprintln(os.Stderr, "c15: cannot set up the bigmachine world:", err)
+				os.Exit(2)
+			}
+			env := &retryEnv{stream: rw.full, real: rw.openers[d.Store]}
+			term, final, nfail, delivered := runRetry(d, env)
+			nontriv := ""
+			if nfail > 0 {
+				nontriv = vf.Hash(term)
+			}
+			out.Add(vf.Case{Term: term, Desc: d, Sig: "retry-rpc-" + d.Store, Nontriv: nontriv, Kind: "rpc/" + d.Store + "/" + final,
+				Observed: fmt.Sprintf("delivered %d of %d bytes, final %s", delivered, len(rw.full), final)})
 		case "retry":
-			term, final, nfail, delivered := runRetry(d)
+			term, final, nfail, delivered := runRetry(d, nil)
 			kind := "retry/" + final
 			nontriv := ""
 			if nfail > 0 {
@@ -1037,6 +1210,10 @@ func main() {
 		if i%256 == 255 {
 			runtime.GC() // lets finalizers close descriptors the code under test leaked
 		}
+	}
+	if theWorld != nil {
+		out.Extra["rpc_stream_bytes"] = len(theWorld.full)
+		theWorld.w.Shutdown()
 	}
 	out.Extra["fault_kinds_fired"] = firedDist
 	if err := out.Write(opts.Out, opts); err != nil {
